@@ -36,7 +36,9 @@ typedef struct {
 } thr_t;
 
 static thr_t T[NTHR];
-static struct { int t; long n; } segs[MAXSEG];
+/* t >= 0: run thread t for n blocks; t == -2: n round-robin slices of 1..len blocks (lengths from seed) */
+static struct { int t; long n; long len; uint64_t seed; } segs[MAXSEG];
+static long rr_count;
 static int nsegs, seg_pos;
 static volatile long budget;
 static volatile int cur = -1;			/* index of the thread holding the baton */
@@ -53,7 +55,17 @@ static int pick_target(int want) {
 }
 
 /* Chooses who runs next and for how long; returns the thread index or -1 if all are done. */
+static int next_slice(void);
 static int next_slice(void) {
+	if (seg_pos < nsegs && segs[seg_pos].t == -2) {
+		if (segs[seg_pos].n > 0) {
+			segs[seg_pos].n--;
+			budget = 1 + (long)(sim_mix64(&segs[seg_pos].seed) % (uint64_t)(segs[seg_pos].len > 0 ? segs[seg_pos].len : 1));
+			return pick_target((int)(rr_count++ & 0x3fffffff));
+		}
+		seg_pos++;
+		return next_slice();
+	}
 	if (seg_pos < nsegs) {
 		int t = pick_target(segs[seg_pos].t);
 		budget = segs[seg_pos].n > 0 ? segs[seg_pos].n : 1;
@@ -128,7 +140,7 @@ static void engine_boot(void) {
 static void engine_run(void) {
 	char *line;
 	memset(T, 0, sizeof(T));
-	nsegs = seg_pos = 0;
+	nsegs = seg_pos = 0; rr_count = 0;
 	n_switch = n_blocks = 0;
 	while ((line = plan_next_line()) != NULL) {
 		if (strncmp(line, "THREAD ", 7) == 0) {
@@ -138,6 +150,13 @@ static void engine_run(void) {
 		} else if (strncmp(line, "MODE ", 5) == 0) {
 			int t = atoi(line + 5) % NTHR;
 			T[t].lazy = strstr(line, "lazy") != NULL;
+		} else if (strncmp(line, "RR ", 3) == 0 && nsegs < MAXSEG) {
+			char *p = line + 3;
+			segs[nsegs].t = -2;
+			segs[nsegs].n = strtol(p, &p, 10);
+			segs[nsegs].len = strtol(p, &p, 10);
+			segs[nsegs].seed = strtoull(p, NULL, 10);
+			nsegs++;
 		} else if (strncmp(line, "SEG ", 4) == 0 && nsegs < MAXSEG) {
 			char *p = line + 4;
 			segs[nsegs].t = (int)strtol(p, &p, 10);
